@@ -1052,7 +1052,7 @@ impl<T, P> ThinVec<T, P> {
     {
         let len = self.len();
         let Range { start, end } = common::range(range, len)?;
-        let ptr = self.ptr();
+        self.reserve(end - start);
         unsafe {
             for (i, j) in (start..end).zip(len..) {
                 self.ptr().add(j).write(self.ptr().add(i).as_ref().clone());
